@@ -1,6 +1,6 @@
 """Adapter: spec/WorldLoad.tla  <->  desper.model.world (WorldHandle, WorldFromFileHandle, populate_world_from_dict).
 
-Each `Load(md)` edge writes the description as a real JSON file into a fresh temporary directory and loads it
+Each `Load(md)` edge writes the description as a real JSON file into a temporary directory and loads it
 through a real WorldFromFileHandle stored in a real ResourceMap (file1: key 'w'; file2: key 'worlds/w1', i.e.
 below an implicitly created map), or feeds the resolved dict to populate_world_from_dict (dict: through a
 WorldHandle; bare: on a fresh World).  `Enable` sets dispatch_enabled = True.  Observations are canonical
@@ -39,9 +39,13 @@ def skey(x):
 
 
 class WorldLoadAdapter:
-    def __init__(self, desper, shapes):
+    def __init__(self, desper, shapes, workdir=None):
         self.desper = desper
         self.shapes = shapes
+        # One mkdtemp directory per adapter, inside the check's scratch directory (removed by Result.finish);
+        # the JSON file itself lives only for the duration of one Load.  (rmdir costs 3 ms here: not per step.)
+        self.dir = tempfile.mkdtemp(prefix='verif-c15-', dir=workdir)
+        self.own_dir = workdir is None
         self.types = importlib.import_module(MOD)
         self.mw = importlib.import_module('desper.model.world')
         self.named = {s['name']: resolve(s['name']) for s in shapes.values() if s['k'] == 'str' and s['mk'] == 'obj'}
@@ -180,16 +184,15 @@ class WorldLoadAdapter:
         rm['a/b'] = handles['a.b']
         self.env = env = {'handles': handles, 'rm': rm, 'mode': md, 'world': None, 'handle': None}
         if md in ('file1', 'file2'):
-            tmp = tempfile.mkdtemp(prefix='verif-c15-')
+            fn = os.path.join(self.dir, 'world.json')
             try:
-                fn = os.path.join(tmp, 'world.json')
                 with open(fn, 'w') as f:
                     json.dump(self.file_json(self.desc, sparse=(md == 'file2')), f)
                 h = env['handle'] = d.WorldFromFileHandle(fn)
                 rm['w' if md == 'file1' else 'worlds/w1'] = h
                 world, ex = guarded(h)
             finally:
-                shutil.rmtree(tmp, ignore_errors=True)
+                os.remove(fn)
         else:
             dd = self.dict_desc(self.desc, rm)
             if md == 'dict':
@@ -202,6 +205,13 @@ class WorldLoadAdapter:
                 _, ex = guarded(lambda: d.populate_world_from_dict(world, dd))
         env['world'] = world
         return self.observe(ex)
+
+    def close(self):
+        shutil.rmtree(self.dir, ignore_errors=True)
+
+    def __del__(self):
+        if self.own_dir:
+            self.close()
 
     def observe(self, ex):
         obs = {'outcome': exc_name(ex)}
